@@ -148,14 +148,27 @@ static void vegas_case(report& r, std::string const& id, sz iters, int gridkind,
     }
     else
     {
-        int const world = mode - 100;
+        // 100 + P: MPI run with P ranks; 1000 + 100 s + P: the first s iterations serially, written to text, read back and
+        // continued under MPI with P ranks
+        int const world = mode >= 1000 ? mode % 100 : mode - 100;
+        sz const split = mode >= 1000 ? sz((mode - 1000) / 100) : 0;
+        std::vector<sz> const first(calls.begin(), calls.begin() + split), rest(calls.begin() + split, calls.end());
+        auto start = fresh();
+        if (split)
+        {
+            start = hep::vegas(integrand, first, start, vf::never_stop());
+            log = LOG<T>();
+            std::ostringstream o; start.serialize(o);
+            std::istringstream in(o.str());
+            start = hep::make_vegas_chkpt<T, E>(in);
+        }
         vf::mpi_env env(world);
         std::vector<std::vector<seen<T>>> per_rank(world);
         std::vector<std::vector<sz>> bounds(world);
         std::vector<std::string> texts(world);
         auto out = env.run([&](int rank) {
             LOG<T>().clear(); g_bounds.clear();
-            auto c = hep::mpi_vegas(MPI_COMM_WORLD, integrand, calls, fresh(), mark_mpi<T>());
+            auto c = hep::mpi_vegas(MPI_COMM_WORLD, integrand, rest, start, mark_mpi<T>());
             per_rank[rank] = LOG<T>(); bounds[rank] = g_bounds;
             std::ostringstream o; c.serialize(o); texts[rank] = o.str();
             if (rank == 0) chk = c;
@@ -163,10 +176,10 @@ static void vegas_case(report& r, std::string const& id, sz iters, int gridkind,
         if (!out.ok) { r.violate("mpi-run-failed", id, id + ": " + out.what); return; }
         for (int k = 1; k < world; ++k) if (texts[k] != texts[0]) { r.violate("ranks-return-different-checkpoints", id, id); return; }
         // concatenate the per-rank logs iteration by iteration in rank order (boundaries marked by the callback)
-        for (sz it = 0; it != calls.size(); ++it)
+        for (sz it = 0; it != rest.size(); ++it)
             for (int k = 0; k != world; ++k)
             {
-                if (bounds[k].size() != calls.size()) { r.violate("callback-invocations", id, id + ": rank " + std::to_string(k) + " invoked the callback " + std::to_string(bounds[k].size()) + " times"); return; }
+                if (bounds[k].size() != rest.size()) { r.violate("callback-invocations", id, id + ": rank " + std::to_string(k) + " invoked the callback " + std::to_string(bounds[k].size()) + " times"); return; }
                 for (sz i = it ? bounds[k][it - 1] : 0; i != bounds[k][it]; ++i) log.push_back(per_rank[k][i]);
             }
     }
@@ -242,24 +255,35 @@ static void mc_case_with(report& r, std::string const& id, sz iters, int wkind, 
     }
     else
     {
-        int const world = mode - 100;
+        int const world = mode >= 1000 ? mode % 100 : mode - 100;
+        sz const split = mode >= 1000 ? sz((mode - 1000) / 100) : 0;
+        std::vector<sz> const first(calls.begin(), calls.begin() + split), rest(calls.begin() + split, calls.end());
+        auto start = fresh();
+        if (split)
+        {
+            start = hep::multi_channel(integrand, first, start, vf::never_stop());
+            log = LOG<T>();
+            std::ostringstream o; start.serialize(o);
+            std::istringstream in(o.str());
+            start = hep::make_multi_channel_chkpt<T, E>(in);
+        }
         vf::mpi_env env(world);
         std::vector<std::vector<seen<T>>> per_rank(world);
         std::vector<std::vector<sz>> bounds(world);
         std::vector<std::string> texts(world);
         auto out = env.run([&](int rank) {
             LOG<T>().clear(); g_bounds.clear();
-            auto c = hep::mpi_multi_channel(MPI_COMM_WORLD, integrand, calls, fresh(), mark_mpi<T>());
+            auto c = hep::mpi_multi_channel(MPI_COMM_WORLD, integrand, rest, start, mark_mpi<T>());
             per_rank[rank] = LOG<T>(); bounds[rank] = g_bounds;
             std::ostringstream o; c.serialize(o); texts[rank] = o.str();
             if (rank == 0) chk = c;
         });
         if (!out.ok) { r.violate("mpi-run-failed", id, id + ": " + out.what); return; }
         for (int k = 1; k < world; ++k) if (texts[k] != texts[0]) { r.violate("ranks-return-different-checkpoints", id, id); return; }
-        for (sz it = 0; it != calls.size(); ++it)
+        for (sz it = 0; it != rest.size(); ++it)
             for (int k = 0; k != world; ++k)
             {
-                if (bounds[k].size() != calls.size()) { r.violate("callback-invocations", id, id + ": rank " + std::to_string(k) + " invoked the callback " + std::to_string(bounds[k].size()) + " times"); return; }
+                if (bounds[k].size() != rest.size()) { r.violate("callback-invocations", id, id + ": rank " + std::to_string(k) + " invoked the callback " + std::to_string(bounds[k].size()) + " times"); return; }
                 for (sz i = it ? bounds[k][it - 1] : 0; i != bounds[k][it]; ++i) log.push_back(per_rank[k][i]);
             }
     }
@@ -344,6 +368,8 @@ static void for_type(report& r)
         std::vector<int> modes = {0, 50};      // 50: written to text and read back before the first iteration
         for (sz s = 1; s < iters; ++s) modes.push_back(int(s));
         for (int p = 1; p <= (r.a().thorough() ? 4 : 3); ++p) modes.push_back(100 + p);
+        // a serial run resumed under MPI (from text, after s iterations)
+        for (sz s = 1; s < iters; ++s) for (int p : {1, 3}) modes.push_back(1000 + 100 * int(s) + p);
         for (int mode : modes)
         {
             for (int gk = 0; gk <= 4; ++gk)
